@@ -789,7 +789,12 @@ class Inflate:
         axis = int(pool.rng.integers(0, a.ndim - nd + 1))
         dshape = a.shape[axis:axis + nd]
         size = int(numpy.prod(dshape)) if nd else 1
-        if style == 'perm':
+        cache = pool.__dict__.setdefault('dofcache', {})
+        prev = cache.get((tuple(dshape), style))
+        if style != 'arg1' and prev is not None and pool.rng.random() < .5:
+            # re-use a scatter map that another node of this case already uses (rules compare dofmaps by identity)
+            length, dof = prev
+        elif style == 'perm':
             length = size
             dof = pool.rng.permutation(size).reshape(dshape)
         else:
@@ -797,6 +802,8 @@ class Inflate:
             dof = pool.rng.integers(0, length, size=dshape)   # duplicates allowed
             if pool.rng.random() < .3 and nd == 1:
                 dof = numpy.sort(dof)
+        if style != 'arg1':
+            cache[(tuple(dshape), style)] = (length, dof)
         p = dict(axis=axis, style=style, length=length, nd=nd)
         args = [a.i]
         if style == 'arg1':
@@ -1218,6 +1225,102 @@ class Fem:
         return out
 
 
+@op('scattersum', 1.2)
+class ScatterSum:
+    """balanced sum ((t1+t2)+(t3+t4)) of arrays scattered on axis 0 (and optionally axis 1) by scatter maps drawn from a small
+    SHARED set, so that the two halves of the sum have partially overlapping map sets"""
+    @staticmethod
+    def gen(pool, a=None):
+        rng = pool.rng
+        n0, n1 = int(rng.integers(3, 7)), int(rng.integers(2, 4))
+        m = int(rng.integers(1, 4))
+        nmaps = int(rng.choice([3, 3, 4, 2]))
+        maps0 = [[int(x) for x in rng.permutation(n0)[:m]] if rng.random() < .7 else [int(x) for x in rng.integers(0, n0, size=m)] for _ in range(nmaps)]
+        maps1 = [[int(x) for x in rng.permutation(n1)[:min(m, n1)]] for _ in range(2)]
+        kind = str(rng.choice(['f', 'f', 'i']))
+        nterms = int(rng.choice([4, 4, 4, 2, 3, 5, 6]))
+        terms, args = [], []
+        for t in range(nterms):
+            i0 = int(rng.integers(nmaps))
+            two = rng.random() < .5
+            if two:
+                i1 = int(rng.integers(2))
+                args.append(Arg.gen(pool, want_kind=kind, shape=(len(maps0[i0]), len(maps1[i1]))))
+                terms.append(dict(m0=i0, m1=i1))
+            else:
+                args.append(Arg.gen(pool, want_kind=kind, shape=(len(maps0[i0]),)))
+                terms.append(dict(m0=i0, m1=None))
+        return pool.add('scattersum', args, dict(n0=n0, n1=n1, maps0=maps0, maps1=maps1, terms=terms), (n0, n1), kind)
+
+    @staticmethod
+    def build(ev, kids, p, node, ctx):
+        c = ev.constant
+        d0 = [c(numpy.array(mp, dtype=int)) for mp in p['maps0']]     # one object per map: shared between terms
+        d1 = [c(numpy.array(mp, dtype=int)) for mp in p['maps1']]
+        built = []
+        for k, t in zip(kids, p['terms']):
+            if t['m1'] is None:
+                built.append(ev.InsertAxis(ev.Inflate(k, d0[t['m0']], c(p['n0'])), c(p['n1'])))
+            else:
+                built.append(ev.Inflate(ev._inflate(k, d0[t['m0']], c(p['n0']), 0), d1[t['m1']], c(p['n1'])))
+        while len(built) > 1:   # balanced tree
+            built = [built[i] + built[i + 1] if i + 1 < len(built) else built[i] for i in range(0, len(built), 2)]
+        return built[0]
+
+    @staticmethod
+    def shadow(vals, p, node, ctx):
+        out = numpy.zeros((p['n0'], p['n1']), NPDT[node['kind']])
+        for v, t in zip(vals, p['terms']):
+            r = numpy.array(p['maps0'][t['m0']], dtype=int)
+            if t['m1'] is None:
+                numpy.add.at(out, r, numpy.repeat(v[:, None], p['n1'], 1))
+            else:
+                cidx = numpy.array(p['maps1'][t['m1']], dtype=int)
+                numpy.add.at(out, (r[:, None], cidx[None, :]), v)
+        return out
+
+
+INT_ARCHETYPES = ['const-mixed', 'const-pos', 'const-neg', 'const-uniform', 'range', 'inrange', 'normdim', 'sign', 'abs', 'arg']
+INT_BINOPS = ['mod', 'floordiv', 'min', 'max', 'mul', 'add', 'sub', 'greater', 'equal']
+
+
+def _int_operand(pool, arch, n):
+    rng = pool.rng
+    if arch.startswith('const'):
+        if arch == 'const-mixed':
+            v = rng.integers(-4, 5, size=n)
+        elif arch == 'const-pos':
+            v = rng.integers(1, int(rng.choice([4, 6, 9])), size=n)
+        elif arch == 'const-neg':
+            v = -rng.integers(1, int(rng.choice([4, 6, 9])), size=n)
+        else:
+            v = numpy.full(n, int(rng.choice([-3, -1, 1, 2, 4])))
+        return pool.view(pool.add('const', [], dict(v=encode(numpy.asarray(v, dtype=numpy.int64))), (n,), 'i'))
+    if arch == 'range':
+        return pool.view(pool.add('range', [], dict(offset=int(rng.integers(-2, 3))), (n,), 'i'))
+    if arch in ('inrange', 'normdim'):
+        k = int(rng.integers(1, 6))
+        ii = Arg.gen(pool, want_kind='i', shape=(n,))
+        pool.nodes[ii]['p']['range'] = [0, k] if arch == 'inrange' else [-k, k]
+        return pool.view(pool.add('intops', [ii], dict(f=arch, n=k), (n,), 'i'))
+    a = pool.view(Arg.gen(pool, want_kind='i', shape=(n,)))
+    if arch == 'arg':
+        return a
+    return pool.view(pool.add('unary', [a.i], dict(f=arch), (n,), 'i'))
+
+
+def intpair(rng, f, archa, archb, third=None):
+    """systematic integer-range mixer: f(archetype A, archetype B), optionally consumed by a third range-sensitive op"""
+    pool = Pool(rng)
+    n = int(rng.integers(1, 7))
+    a, b = _int_operand(pool, archa, n), _int_operand(pool, archb, n)
+    cur = pool.view(pool.add('binary', [a.i, b.i], dict(f=f), (n,), BINARY[f][4] or 'i'))
+    if third and cur.kind == 'i':
+        c = _int_operand(pool, str(rng.choice(['const-pos', 'const-mixed', 'range'])), n)
+        cur = pool.view(pool.add('binary', [cur.i, c.i] if rng.random() < .5 else [c.i, cur.i], dict(f=third), (n,), BINARY[third][4] or 'i'))
+    return prune(dict(nodes=pool.nodes, outputs=[cur.i]))
+
+
 # ---- loops -----------------------------------------------------------------
 
 @op('loop_sum', 0.)
@@ -1301,7 +1404,7 @@ def _weights(profile):
             wt = cls.weight
             if profile == 'int' and name in ('intops',):
                 wt *= 3
-            if profile == 'sparse' and name in ('inflate', 'diagonalize', 'fem', 'insertaxis', 'ravel', 'unravel', 'stack', 'concat'):
+            if profile == 'sparse' and name in ('inflate', 'diagonalize', 'fem', 'insertaxis', 'ravel', 'unravel', 'stack', 'concat', 'scattersum'):
                 wt *= 3
             w.append(wt)
     w = numpy.array(w)
@@ -1488,6 +1591,45 @@ def chain(rng, opnames, kind=None):
         if last is None:
             raise Reject
         cur = pool.view(last)
+    return prune(dict(nodes=pool.nodes, outputs=[cur.i]))
+
+
+def scatterchain(rng, opnames, inloop=False):
+    """Systematic mixer with a scatter-sum source: Op(ScatterSum) or loop_sum_i Op((i+1)*ScatterSum)."""
+    pool = Pool(rng)
+    cur = pool.view(ScatterSum.gen(pool))
+    Arg.gen(pool, want_kind=cur.kind, shape=cur.shape)     # dense partner for binary operations
+    idx = None
+    if inloop:
+        length = int(rng.integers(1, 4))
+        idx = pool.add('loopindex', [], dict(name='i0', length=length), (), 'i')
+        pool.nloops = 1
+        ii = idx if cur.kind == 'i' else pool.add('astype', [idx], dict(to=cur.kind), (), cur.kind)
+        one = pool.add('const', [], dict(v=encode(numpy.array(1, dtype=NPDT[cur.kind]))), (), cur.kind)
+        sc = pool.add('binary', [ii, one], dict(f='add'), (), cur.kind)
+        cur = pool.view(pool.add('binary', [cur.i, sc], dict(f='mul'), cur.shape, cur.kind))
+    for name in opnames:
+        forced = {}
+        if ':' in name:
+            name, sub = name.split(':', 1)
+            key = {'unary': 'f', 'binary': 'f', 'take': 'style', 'inflate': 'style', 'powconst': 'e'}[name]
+            forced = {key: float(sub) if name == 'powconst' else sub}
+        last = None
+        for attempt in range(6):
+            try:
+                last = OPS[name].gen(pool, a=cur, **forced)
+                break
+            except Reject:
+                continue
+            except TypeError:
+                raise Reject
+        if last is None:
+            raise Reject
+        cur = pool.view(last)
+    if inloop:
+        if cur.kind == 'b' or 'i0' not in cur.loops:
+            raise Reject
+        cur = pool.view(pool.add('loop_sum', [cur.i, idx], dict(name='i0', length=length), cur.shape, cur.kind))
     return prune(dict(nodes=pool.nodes, outputs=[cur.i]))
 
 
